@@ -227,8 +227,153 @@ pub const TEST_NAMES: [&str; 16] = [
     "t_list_sum", "t_list_len", "t_pair", "t_nested", "t_derived", "t_wrong", "t_fail", "t_generic_int", "t_generic_bytes", "t_color", "t_shapes", "p_byte", "p_sum", "p_small", "p_small_expected", "p_shared",
 ];
 
+
+/// One module constant per *shape* of compiled constant (which reference-counted parts a
+/// `Constant` has depends on its UPLC type: `list (pair ..)`, nested lists, pairs of pairs,
+/// constants built by a function at compile time, ...), each referred to by two tests.
+pub const KINDS_LIB: &str = r#"pub const prices: Pairs<ByteArray, Int> = [Pair("apple", 1), Pair("plum", 2)]
+
+pub const grid: List<List<Int>> = [[1], [2, 3]]
+
+pub const pp: Pair<Int, Pair<Int, Int>> = Pair(1, Pair(2, 3))
+
+pub const maps: List<Pairs<Int, Int>> = [[Pair(1, 2)], []]
+
+pub const mixed: Pair<List<Int>, Pairs<Int, Int>> = Pair([1], [Pair(1, 2)])
+
+pub const tup: (Int, Pairs<Int, Int>) = (1, [Pair(1, 2)])
+
+pub const built: Pairs<Int, Int> = build(3)
+
+pub const text: String = @"hello"
+
+pub const blob: ByteArray = #"00ff"
+
+pub const opt: Option<Pairs<Int, Int>> = Some([Pair(1, 2)])
+
+fn build(n: Int) -> Pairs<Int, Int> {
+  if n <= 0 {
+    []
+  } else {
+    [Pair(n, n), ..build(n - 1)]
+  }
+}
+
+fn plen(xs: Pairs<a, b>) -> Int {
+  when xs is {
+    [] -> 0
+    [_, ..rest] -> 1 + plen(rest)
+  }
+}
+
+fn first_value(xs: Pairs<a, Int>) -> Int {
+  when xs is {
+    [] -> 0
+    [Pair(_, v), ..] -> v
+  }
+}
+
+fn llen(xs: List<a>) -> Int {
+  when xs is {
+    [] -> 0
+    [_, ..rest] -> 1 + llen(rest)
+  }
+}
+
+test k_prices_a() {
+  plen(prices) == 2
+}
+
+test k_prices_b() {
+  first_value(prices) == 1
+}
+
+test k_grid_a() {
+  llen(grid) == 2
+}
+
+test k_grid_b() {
+  when grid is {
+    [row, ..] -> llen(row) == 1
+    _ -> False
+  }
+}
+
+test k_pp_a() {
+  pp.1st == 1
+}
+
+test k_pp_b() {
+  pp.2nd.2nd == 3
+}
+
+test k_maps_a() {
+  llen(maps) == 2
+}
+
+test k_maps_b() {
+  when maps is {
+    [m, ..] -> first_value(m) == 2
+    _ -> False
+  }
+}
+
+test k_mixed_a() {
+  llen(mixed.1st) == 1
+}
+
+test k_mixed_b() {
+  first_value(mixed.2nd) == 2
+}
+
+test k_tup_a() {
+  tup.1st == 1
+}
+
+test k_tup_b() {
+  plen(tup.2nd) == 1
+}
+
+test k_built_a() {
+  plen(built) == 3
+}
+
+test k_built_b() {
+  first_value(built) == 3
+}
+
+test k_text_a() {
+  text == @"hello"
+}
+
+test k_text_b() {
+  text != @""
+}
+
+test k_blob_a() {
+  blob == #"00ff"
+}
+
+test k_blob_b() {
+  blob != #""
+}
+
+test k_opt_a() {
+  opt != None
+}
+
+test k_opt_b() {
+  when opt is {
+    Some(m) -> plen(m) == 1
+    None -> False
+  }
+}
+"#;
+
+pub const KIND_NAMES: [&str; 10] = ["prices", "grid", "pp", "maps", "mixed", "tup", "built", "text", "blob", "opt"];
+
 pub fn scratch() -> Scratch {
-    Scratch::new("c17", &[("lib/fuzz.ak".to_string(), FUZZ_LIB.to_string()), ("lib/coll.ak".to_string(), COLL_LIB.to_string())])
+    Scratch::new("c17", &[("lib/fuzz.ak".to_string(), FUZZ_LIB.to_string()), ("lib/coll.ak".to_string(), COLL_LIB.to_string()), ("lib/kinds.ak".to_string(), KINDS_LIB.to_string())])
 }
 
 // ---------------------------------------------------------------------------------------
@@ -415,10 +560,14 @@ fn tracing_of(level: &str) -> Tracing {
 
 /// run `aiken check` on the selection; returns the audit reports and the outcomes
 pub fn check_selection(sc: &Scratch, selection: &[&str], level: &str, seed: u32) -> Result<(Vec<AuditReport>, Vec<TestOutcome>), String> {
+    check_selection_in(sc, "coll", selection, level, seed)
+}
+
+pub fn check_selection_in(sc: &Scratch, module: &str, selection: &[&str], level: &str, seed: u32) -> Result<(Vec<AuditReport>, Vec<TestOutcome>), String> {
     let (mut p, l) = sc.project()?;
     REPORTS.lock().unwrap().clear();
     aiken_project::verif_hooks::set_pre_parallel_audit(Some(audit));
-    let matches: Vec<String> = vec![format!("coll.{{{}}}", selection.join(","))];
+    let matches: Vec<String> = vec![format!("{module}.{{{}}}", selection.join(","))];
     let _ = p.check(false, Some(matches), false, true, seed, 30, Default::default(), tracing_of(level), false, None);
     aiken_project::verif_hooks::set_pre_parallel_audit(None);
     let reports = REPORTS.lock().unwrap().clone();
@@ -451,14 +600,21 @@ pub fn run(tier: Tier, _replay: Option<String>) -> i32 {
     // every subset of size 1..=max_subset of the collision-prone tests, plus the whole set,
     // under each trace level
     let n = TEST_NAMES.len();
-    let mut selections: Vec<Vec<&str>> = vec![TEST_NAMES.to_vec()];
+    // constant-shape family first: the whole module, and the two tests of each constant
+    let kind_tests: Vec<String> = KIND_NAMES.iter().flat_map(|k| [format!("k_{k}_a"), format!("k_{k}_b")]).collect();
+    let mut selections: Vec<(&str, Vec<&str>)> = vec![("kinds", kind_tests.iter().map(|s| s.as_str()).collect())];
+    for k in 0..KIND_NAMES.len() {
+        selections.push(("kinds", vec![kind_tests[2 * k].as_str(), kind_tests[2 * k + 1].as_str()]));
+    }
+    let n_kind_selections = selections.len();
+    selections.push(("coll", TEST_NAMES.to_vec()));
     for a in 0..n {
-        selections.push(vec![TEST_NAMES[a]]);
+        selections.push(("coll", vec![TEST_NAMES[a]]));
         for b in a + 1..n {
-            selections.push(vec![TEST_NAMES[a], TEST_NAMES[b]]);
+            selections.push(("coll", vec![TEST_NAMES[a], TEST_NAMES[b]]));
             if max_subset >= 3 {
                 for c in b + 1..n {
-                    selections.push(vec![TEST_NAMES[a], TEST_NAMES[b], TEST_NAMES[c]]);
+                    selections.push(("coll", vec![TEST_NAMES[a], TEST_NAMES[b], TEST_NAMES[c]]));
                 }
             }
         }
@@ -471,20 +627,20 @@ pub fn run(tier: Tier, _replay: Option<String>) -> i32 {
     let cap = if tier == Tier::Quick { 40 } else { 1500 };
     let mut done_selections = 0u64;
     'outer: for level in levels {
-        for sel in &selections {
+        for (module, sel) in &selections {
             if start.elapsed().as_secs() > cap {
                 run.cap_hit(&format!("wall cap: {done_selections} of {} (selection, level) configurations audited", selections.len() * levels.len()));
                 break 'outer;
             }
             done_selections += 1;
-            let (reports, outs) = match check_selection(&sc, sel, level, 42) {
+            let (reports, outs) = match check_selection_in(&sc, module, sel, level, 42) {
                 Ok(x) => x,
                 Err(e) => {
                     run.machinery_error(format!("the collision project does not compile: {e}"));
                     break 'outer;
                 }
             };
-            let case = json!({"engine":"c17","selection":sel,"level":level});
+            let case = json!({"engine":"c17","module":module,"selection":sel,"level":level});
             if reports.len() != 1 {
                 run.machinery_error(format!("hook H2 fired {} times for one check (expected once); selection {:?}", reports.len(), sel));
                 continue;
@@ -579,6 +735,7 @@ pub fn run(tier: Tier, _replay: Option<String>) -> i32 {
         }
     }
     run.sample(json!({"selection": ["t_list_sum", "p_sum"], "level": "verbose"}));
+    run.set("constant_shape_selections", (n_kind_selections * levels.len()) as u64);
     run.set("configurations_audited", audits);
     run.set("tests_audited", tests_audited);
     run.set("reference_counted_allocations_walked", allocations);
@@ -589,7 +746,7 @@ pub fn run(tier: Tier, _replay: Option<String>) -> i32 {
     run.set("evaluations", audits + thread_runs);
     run.set("distinct_nontrivial", outcomes_seen.len() as u64);
     run.set("excluded_by_reading", json!(["Fuzzer.type_info / stripped_type_info (Rc<Type> shared with the module AST): Test::run neither reads, clones nor drops them; they are used by reify on the main thread after the parallel section"]));
-    run.set("rule", "every subset (size <= 2 quick / 3 thorough, plus the whole set) of 16 collision-prone tests (shared list/pair/nested/derived constants, a hoisted generic function, shared user types, shared fuzzers, expected failures) x trace levels: hook H2 hands over the Vec<Test> entering rayon; every Rc reachable from each test's programs is walked; invariants: pairwise disjoint, strong count = references from inside the test, no assertion left; each test's result must be the same in every selection; a spanning family is re-run with 1/2/3/16 threads in child processes; distinct_nontrivial = distinct result summaries");
+    run.set("rule", "(a) ten module constants, one per shape of compiled constant (list of pairs, list of lists, pair of pairs, list of maps, pair of list and map, tuple holding a map, a map built by a function at compile time, string, bytes, option of a map), each referred to by two tests: the whole module and each constant's two tests; (b) every subset (size <= 2 quick / 3 thorough, plus the whole set) of 16 collision-prone tests (shared list/pair/nested/derived constants, a hoisted generic function, shared user types, shared fuzzers, expected failures) x trace levels: hook H2 hands over the Vec<Test> entering rayon; every Rc reachable from each test's programs is walked; invariants: pairwise disjoint, strong count = references from inside the test, no assertion left; each test's result must be the same in every selection; a spanning family is re-run with 1/2/3/16 threads in child processes; distinct_nontrivial = distinct result summaries");
     run.assume("rayon's indexed parallel iterator preserves order and runs each element's closure on some worker thread (its contract)");
     if audits < 20 || allocations == 0 {
         run.machinery_error("vacuous: fewer than 20 configurations audited");
